@@ -52,3 +52,6 @@ pub use encryption::*;
 pub use layouts::*;
 pub use lut::*;
 pub mod tests;
+
+#[cfg(feature = "verif-hooks")]
+pub mod verif_hooks;
